@@ -495,6 +495,12 @@ func (C16) Generate(rng *rand.Rand, tier string) []core.Case {
 		}
 		cases[ci].Ops = out
 	}
+	// a subscription whose initial read of the committed state happens after a write has announced its key and
+	// before that write is committed
+	cases = append(cases, core.Case{Name: "seq-subscriber-initial-read-race", Ops: []string{"db.new notif=1",
+		"db.write off=1 ts=1001 P:70:01:_:_:_:706b:1:_",
+		"sq.subrace 70 off=2 ts=1002 P:70:02:_:_:_:706b:1:_ P:71:03:_:_:_:_:_:_", "sq.last 0",
+		"sq.subrace 73 off=3 ts=1003 P:73:02:_:_:_:706b:2:_ P:71:04:_:_:_:_:_:_", "sq.last 1", "sq.last 0"}})
 	// subscriber churn on one prefix, and a rejected sequence put
 	cases = append(cases, core.Case{Name: "seq-subscribers-directed", Ops: []string{"db.new notif=1",
 		"db.write off=1 ts=1001 P:70:01:_:_:_:706b:1:_", "sq.sub 70", "sq.sub 70", "sq.last 0", "sq.last 1",
@@ -529,6 +535,29 @@ func (C16) Oracle(ops, impl, model []string) string {
 			continue
 		}
 		switch f[0] {
+		case "sq.subrace":
+			// the subscriber is registered before the write announces its keys
+			pfx := string(core.UnHex(f[1]))
+			latest := ""
+			if j := strings.Index(out, "] sub="); j > 0 && strings.HasPrefix(out, "P[") {
+				rs := strings.Fields(out[2:j])
+				pi := 0
+				for _, t := range f[2:] {
+					p := strings.Split(t, ":")
+					if p[0] != "P" || len(p) != 9 {
+						continue
+					}
+					if pi < len(rs) {
+						if m := putOkRe.FindStringSubmatch(rs[pi]); m != nil && p[7] != "_" && string(core.UnHex(p[1])) == pfx {
+							latest = string(core.UnHex(m[3]))
+						}
+					}
+					pi++
+				}
+			}
+			subPrefix = append(subPrefix, pfx)
+			subLatest = append(subLatest, latest)
+			continue
 		case "sq.sub":
 			subPrefix = append(subPrefix, string(core.UnHex(f[1])))
 			subLatest = append(subLatest, "")
